@@ -67,10 +67,17 @@ type extOp struct {
 // applyOp registers the extension in the library and mirrors it in the model.
 // It returns the model id of the new node.
 func applyOp(op extOp, model *lib.Tree, base *lib.Tree) int {
+	return applyOpList(op, op.Aliases, model, base)
+}
+
+// applyOpList hands libList (the caller's slice, possibly shared between several calls) to the
+// library and mirrors the operation in the model with op.Aliases, which the library never sees.
+func applyOpList(op extOp, libList []string, model *lib.Tree, base *lib.Tree) int {
 	det := op.Pred.fn(base)
 	var pid int
+	al := append([]string(nil), op.Aliases...) // the model keeps its own copy
 	if op.Parent == "" {
-		mimetype.Extend(det, op.MIME, op.Ext, op.Aliases...)
+		mimetype.Extend(det, op.MIME, op.Ext, libList...)
 		pid = 0
 	} else {
 		lk := mimetype.Lookup(op.Parent)
@@ -78,13 +85,13 @@ func applyOp(op extOp, model *lib.Tree, base *lib.Tree) int {
 			// the library lost a registered name: reported by the caller, not a harness bug
 			panic(lostName{op.Parent})
 		}
-		lk.Extend(det, op.MIME, op.Ext, op.Aliases...)
+		lk.Extend(det, op.MIME, op.Ext, libList...)
 		pid = model.Lookup(op.Parent)
 		if pid < 0 {
 			panic("verif harness: model has no node " + op.Parent)
 		}
 	}
-	return model.AddExt(pid, op.MIME, op.Ext, op.Aliases, det)
+	return model.AddExt(pid, op.MIME, op.Ext, al, det)
 }
 
 // lostName is the panic value used when Lookup of a registered name returns nil.
